@@ -1,5 +1,6 @@
 (* C16 — allocated pids and references are unique.  Only property theorems here. *)
-From EDP Require Import Base.Bytes Gen.PidConsts Dist.PidAlloc Dist.PidAllocFacts.
+From EDP Require Import Base.Bytes Gen.PidConsts Gen.LockScope Dist.PidAlloc Dist.PidAllocFacts Conc.Interleave Conc.AllocConc.
+From EDP Require Conc.RefConc.
 
 (* Any number k <= MAX_PROCESSES_PER_NODE * 2^32 (= 2^52 on the pinned tree) of consecutive allocations,
    started from ANY valid counter position (any id in 1..MAX incl. the wrap point, any serial below 2^63,
@@ -35,5 +36,35 @@ Example C16_example :
      {| p_id := 1; p_serial := 0; p_creation := 7 |};
      {| p_id := 2; p_serial := 0; p_creation := 7 |} ].
 Proof. split; [unfold wf, M, max_processes_per_node; cbn; lia|vm_compute; reflexivity]. Qed.
+
+(* ---- under any interleaving ----
+   allocate: every load and store of the function body is its own atomic step, any number of tasks make any number
+   of calls, the scheduler is arbitrary; the lock held across the body (checked on the source by the translator) makes
+   the identifiers handed out exactly those of the sequential allocator, whoever made the calls and in whatever order *)
+Theorem C16_concurrent_allocations_sequential : forall prog schedule a0, all_alloc prog ->
+  exists k, (k <= length schedule)%nat /\
+    outs (exec (trace _ (run _ (start _ prog) schedule)) a0) = outs a0 ++ allocs k (mem a0).
+Proof. exact allocations_are_sequential. Qed.
+
+Theorem C16_concurrent_pids_unique : forall prog schedule st0, all_alloc prog -> wf st0 ->
+  N.of_nat (length schedule) <= M * two32 ->
+  NoDup (outs (exec (trace _ (run _ (start _ prog) schedule)) {| mem := st0; rid := 0; rser := 0; outs := [] |})).
+Proof. exact concurrent_pids_unique. Qed.
+
+Theorem C16_allocate_holds_its_lock : forallb snd lock_sites = true.
+Proof. exact allocate_holds_its_lock. Qed.
+
+(* make_reference takes no lock: three separate fetch_adds per reference.  Any number of tasks, any schedule of their
+   individual fetch_adds, fewer than 2^32 of them in total: every number handed out is handed out once, so the
+   references — finished or still being built — are pairwise different, and each finished one has its three numbers *)
+Theorem C16_concurrent_references_unique : forall c0 ntasks schedule, c0 < two32 -> N.of_nat (length schedule) <= two32 ->
+  let s := RefConc.run (RefConc.start c0 ntasks) schedule in
+  NoDup (RefConc.all_ids s) /\ NoDup (RefConc.all_refs s) /\ Forall (fun r => length r = 3%nat) (RefConc.all_refs s).
+Proof. exact RefConc.references_unique. Qed.
+
+(* the interleaving is real: two tasks alternating their fetch_adds across the counter's wrap *)
+Example C16_interleaved_references :
+  RefConc.all_refs (RefConc.run (RefConc.start 4294967294 2) [0; 1; 0; 1; 0; 1]%nat) = [[4294967294; 0; 2]; [4294967295; 1; 3]].
+Proof. vm_compute. reflexivity. Qed.
 
 Check C16_seq_unique : forall k st, wf st -> N.of_nat k <= M * two32 -> NoDup (allocs k st).
